@@ -747,7 +747,8 @@ class Interp:
                     self.binding_atoms.add(a)
                 elif a[0] == 'kdict':
                     vals = [b for _, vv in a[1] for b in vv]
-                    table = len(a[1]) >= 16 and all(b[0] in ('partial', 'fn', 'clo', 'lam') for b in vals)
+                    table = len(a[1]) >= 16 and all(b[0] in ('partial', 'fn', 'clo', 'lam') or (b[0] == 'obj' and '@' in b[1] and self.find_method(b[1], '__call__')[1])
+                                                    for b in vals)
                     for b in vals:
                         if b[0] == 'partial' or table:
                             self.binding_atoms.add(b)
@@ -874,6 +875,8 @@ class Interp:
         """frame whose store holds a name visible from fr (None = module / builtins)"""
         f = fr
         first = True
+        if isinstance(fr.node, ast.ClassDef) and name in fr.store.vars:
+            return fr           # a class body sees the names it has bound so far
         while f is not None and f is not self.module:
             sc = f.scope
             if first and (name in sc.nonlocals or name in sc.globals):
@@ -2104,6 +2107,13 @@ class Interp:
     def assign_subscript(self, fr, target, val, node):
         cont = self.eval(fr, target.value)
         key = self.eval(fr, target.slice) if not isinstance(target.slice, ast.Slice) else av(TOP)
+        new = self.updated_container(cont, key, val, node)
+        if new is not None:
+            self.write_back(fr, target.value, new, node)
+            self.note_mutation(fr, target.value)
+
+    def updated_container(self, cont, key, val, node):
+        """the container after `container[key] = val` (None when nothing the analysis tracks changes)"""
         new = set()
         changed = False
         for a in cont:
@@ -2167,16 +2177,30 @@ class Interp:
             else:
                 new.add(a)
         if changed:
-            self.write_back(fr, target.value, normalise(frozenset(new)), node)
-            self.note_mutation(fr, target.value)
+            return normalise(frozenset(new))
+        return None
 
     def write_back(self, fr, expr, val, node):
+        """the mutated container `val` replaces what the expression denotes: a name, an attribute, an entry of another
+        container (`table[k][k2] = v`, `table.setdefault(k, {})[k2] = v`)"""
         if isinstance(expr, ast.Name):
             f = self.owner_frame(fr, expr.id)
             f.store.vars[expr.id] = val
         elif isinstance(expr, ast.Attribute):
             ov = self.eval(fr, expr.value)
             self.store_attr(fr, ov, expr.attr, val, node, weak=True)
+        elif isinstance(expr, ast.Subscript) and not isinstance(expr.slice, ast.Slice):
+            outer = self.eval(fr, expr.value)
+            key = self.eval(fr, expr.slice)
+            new = self.updated_container(outer, key, val, node)
+            if new is not None:
+                self.write_back(fr, expr.value, new, node)
+        elif isinstance(expr, ast.Call) and isinstance(expr.func, ast.Attribute) and expr.func.attr in ('setdefault', 'get') and expr.args:
+            outer = self.eval(fr, expr.func.value)
+            key = self.eval(fr, expr.args[0])
+            new = self.updated_container(outer, key, val, node)
+            if new is not None:
+                self.write_back(fr, expr.func.value, new, node)
         # other receivers (temporaries) need no write back
 
     def note_mutation(self, fr, expr):
@@ -5055,7 +5079,22 @@ class Interp:
             if args.kw:
                 new = self.dict_update(new, ('kdict', tuple((const(kk), vv) for kk, vv in args.kw.items()), None))
             return av(NONE), new
-        if attr in ('pop', 'setdefault'):
+        if attr == 'setdefault' and x is not None:
+            default = pos[1] if len(pos) > 1 else av(NONE)
+            if k == 'kdict' and len(x) == 1 and is_const(next(iter(x))):
+                c = next(iter(x))
+                d = dict(a[1])
+                if c in d:
+                    return d[c], None
+                return default, ('kdict', a[1] + ((c, default),), a[2])
+            out = default
+            if k == 'kdict':
+                for _, vv in a[1]:
+                    out = join(out, vv)
+                return out, self.dict_update(a, ('dict', None, erase_tags(default), frozenset(b for b in x if not is_const(b))))
+            return join(a[2], default), ('dict', None if (a[1] is None or any(not is_const(b) for b in x)) else a[1] | frozenset(b for b in x if is_const(b)),
+                                         join(a[2], erase_tags(default)), join(a[3], frozenset(b for b in x if not is_const(b))))
+        if attr == 'pop':
             out = BOT
             if k == 'kdict':
                 for _, vv in a[1]:
@@ -5064,9 +5103,6 @@ class Interp:
                 out = a[2]
             if len(pos) > 1:
                 out = join(out, pos[1])
-            if attr == 'setdefault' and len(pos) > 1:
-                return out, self.dict_update(a, ('dict', None, erase_tags(pos[1]), x)) if not (len(x) == 1 and is_const(next(iter(x)))) \
-                    else (self.dict_update(a, ('kdict', ((next(iter(x)), pos[1]),), None)) if next(iter(x)) not in dict(a[1] if k == 'kdict' else ()) else None)
             return out, None
         if attr == 'copy':
             return av(a), None
